@@ -398,6 +398,9 @@ TABLE = {"C04": c04, "C13": c13, "C06": c06, "C17": c17, "C08": c08, "C10": c10,
 
 
 def run(pid, tier, seed, replay, keep=False):
+    if pid in ("C03", "C12", "C18"):
+        from . import gens
+        return {"C03": gens.run_c03, "C12": gens.run_c12, "C18": gens.run_c18}[pid](tier, seed, replay, keep)
     if pid == "C14":
         from . import conc
         return conc.run_c14(tier, seed, replay, keep)
